@@ -625,10 +625,10 @@ func c18Closure(c *Ctx, decls map[*types.Func]*ast.FuncDecl) {
 				return true
 			}
 			cal := Callee(info, call)
-			if cal == nil || cal.Name() != "getSchemaName" || len(call.Args) != 1 {
+			if cal == nil || cal != c.P.Func(pkgOpenAPI, "Generator.getSchemaName") || len(call.Args) != 1 {
 				return true
 			}
-			if fn.Name() == "processMessage" || fn.Name() == "buildFlattenedOneofSchema" {
+			if fn == c.P.Func(pkgOpenAPI, "Generator.processMessage") || fn == c.P.Func(pkgOpenAPI, "Generator.buildFlattenedOneofSchema") {
 				return true // key side / own name
 			}
 			arg := ast.Unparen(call.Args[0])
@@ -947,7 +947,7 @@ func c18PerService(c *Ctx) {
 		fmt.Sprintf("the per-service loop (with the local functions it calls) reaches %v (continue/break: %v): a service without a document, or several services in one", calls, skip))
 	// file name: Sprintf with service name and ext; ext depends on format
 	for fn, decl := range mainDecls {
-		if fn.Name() != "writeServiceFile" {
+		if fn != c.P.Func(cmdOpenAPI, "writeServiceFile") {
 			continue
 		}
 		minfo := c.P.DeclPkg[fn].TypesInfo
